@@ -84,8 +84,9 @@ func TestC12Serve(t *testing.T) { core.Run(t, "C12", GenS12, ExecS) }
 func TestC11Hist(t *testing.T) { core.Run(t, "C11", GenHVerify(4), ExecH) }
 func TestC12Hist(t *testing.T) { core.Run(t, "C12", GenHVerify(6), ExecH) }
 
+func TestC12Start(t *testing.T) { core.Run(t, "C12", GenC12Start, ExecC12Start) }
 func TestC13Start(t *testing.T) { core.Run(t, "C13", GenSt, ExecSt) }
 
-func TestC14Hist(t *testing.T) { core.Run(t, "C14", GenH14, ExecH) }
+func TestC14Hist(t *testing.T)  { core.Run(t, "C14", GenH14, ExecH) }
 func TestC08Start(t *testing.T) { core.Run(t, "C08", GenPDStart("C08"), ExecPDStart) }
 func TestC09Start(t *testing.T) { core.Run(t, "C09", GenPDStart("C09"), ExecPDStart) }
